@@ -9,6 +9,8 @@ import types
 import refcodec as rc
 import sched as SC
 
+EXTRA_PROPS = ['C12Bytes']
+
 RULE = ("1..4 user threads with programs over {queued write, forced write, graceful disconnect, "
         "immediate disconnect} (0..5 ops each, distinct packets) against the networking thread's own "
         "write loop; schedules: seeded random walks over the enabled threads with random bias towards or "
@@ -43,7 +45,7 @@ def prog_str(progs):
     return ';'.join(','.join('%s%d' % op for op in ops) or '-' for ops in progs) or '-'
 
 
-def scenario(C, E, progs, choose, transport='plain', capw=300, capr=50, fine=False):
+def scenario(C, E, progs, choose, transport='plain', capw=300, capr=50, fine=False, listener=None):
     """run one scenario to completion; returns dict(log, ran, wire bytes, …)"""
     from minecraft.networking.packets import serverbound
     rng_dummy = None
@@ -101,6 +103,21 @@ def scenario(C, E, progs, choose, transport='plain', capw=300, capr=50, fine=Fal
         if transport == 'compressed':
             conn.options.compression_enabled = True
             conn.options.compression_threshold = 4
+        if listener is not None:
+            # a late OUTGOING packet listener that calls back into the connection while the write lock is
+            # held re-entrantly: (trigger packet, 'd' graceful disconnect | 'f' forced write | 'q' queued write)
+            trig, act = listener
+
+            def on_out(pk):
+                if getattr(pk, 'pid', None) != trig:
+                    return
+                if act == 'd':
+                    conn.disconnect()
+                else:
+                    extra = serverbound.play.ChatPacket(message='m%d' % (900 + trig) + 'x' * ((900 + trig) % 7))
+                    extra.pid = 900 + trig
+                    conn.write_packet(extra, force=(act == 'f'))
+            conn.register_packet_listener(on_out, serverbound.play.ChatPacket, outgoing=True)
         nt = INT(conn)
         nt.sched_tid = 0
         conn.networking_thread = nt
@@ -150,7 +167,7 @@ def fmt_log(log):
     return ','.join(out) or '-'
 
 
-def oracle(ctx, progs, r, transport, label):
+def oracle(ctx, progs, r, transport, label, extra_issued=(), stream_only=False):
     """the property on the server-side byte stream"""
     data = b''.join(b for _, _, _, b in r['wire'])
     if transport == 'encrypted':
@@ -161,6 +178,8 @@ def oracle(ctx, progs, r, transport, label):
         frames, left = None, repr(e)
     bad = None
     issued = {arg: (t + 1, k) for t, ops in enumerate(progs) for k, arg in ops if k != 'd'}
+    for x in extra_issued:
+        issued[x] = (0, 'f')
     if frames is None or left:
         bad = 'byte stream is not a sequence of whole well-formed frames (%r)' % (left[:20] if frames is not None else left,)
     else:
@@ -194,7 +213,7 @@ def oracle(ctx, progs, r, transport, label):
             cls_at = next((i for i, e in enumerate(log) if e[1] == 'cls'), None)
             if cls_at is not None and any(e[1] == 'snd' for e in log[cls_at:]):
                 bad = 'bytes were sent after the socket was closed'
-            for t, ops in enumerate(progs):
+            for t, ops in enumerate(progs if not stream_only else []):
                 tid = t + 1
                 dcount = 0
                 for k, arg in ops:
@@ -266,6 +285,43 @@ def run(ctx):
         if r['errors']:
             ctx.violation('a thread raised: %r' % (r['errors'][:2],), {'programs': prog_str(progs), 'schedule': r['ran']},
                           key={'programs': prog_str(progs), 'schedule': r['ran'], 'kind': 'thread-error'})
+    # ---- outgoing listeners that call back into the connection from inside a write (the reason the
+    # write lock is re-entrant): oracle on the byte stream only
+    for i in range(ctx.scale(150, 1500)):
+        progs = gen_programs(rng, nthreads=rng.randint(1, 3))
+        pids = [arg for ops in progs for k, arg in ops if k != 'd']
+        if not pids:
+            continue
+        trig, act = rng.choice(pids), rng.choice('ddfq')
+        bias = rng.random()
+
+        def choose(en, n, bias=bias):
+            if 0 in en and rng.random() < bias * 0.6:
+                return 0
+            return rng.choice(en)
+        r = scenario(C, E, progs, choose, 'plain', listener=(trig, act))
+        label = 'outgoing listener on packet %d doing %s' % (trig, {'d': 'disconnect()', 'f': 'a forced write', 'q': 'a queued write'}[act])
+        ctx.case(('listener', prog_str(progs), trig, act, tuple(r['ran'])),
+                 sample={'programs': prog_str(progs), 'kind': 'reentrant-listener', 'trigger': trig, 'action': act})
+        ctx.count('listener_walks.' + act)
+        oracle(ctx, progs, r, 'plain', label, extra_issued=[900 + trig], stream_only=True)
+        if r['errors']:
+            ctx.violation('%s: a thread raised: %r' % (label, r['errors'][:2]), {'programs': prog_str(progs), 'schedule': r['ran']},
+                          key={'programs': prog_str(progs), 'schedule': r['ran'], 'kind': 'thread-error'})
+    # ---- bulk: more queued packets than the networking thread writes per batch, then a graceful disconnect
+    for i in range(ctx.scale(2, 6)):
+        nq = [301, 310, 650, 305, 320, 900][i]
+        progs = [[('q', k) for k in range(1, nq + 1)] + [('d', 0)]]
+        if i % 2:
+            progs.append([('f', nq + 1)])
+
+        def choose(en, n, i=i):
+            users = [x for x in en if x != 0]
+            if i % 2 == 0 or rng.random() < 0.97:
+                return users[0] if users else 0        # the writer runs ahead of the networking thread
+            return rng.choice(en)
+        r = scenario(C, E, progs, choose, 'plain')
+        record(ctx, progs, r, 'plain', lines, impl, 'bulk')
     # ---- systematic: all schedules of small scenarios up to a preemption bound (DFS over choices)
     if ctx.thorough or ctx.searching:
         small = [[[('q', 1), ('d', 0)], [('f', 2)]], [[('f', 1), ('q', 2)], [('d', 1)]],
@@ -313,9 +369,40 @@ def run(ctx):
         if mo != g:
             ctx.disagree('writers trace', line[:400], mo[:500], g[:500])
     ctx.extra['traces'] = len(lines)
+    # ---- Model/WireBytes.lean `chunkBytes`: the argument of each of the two socket.send calls of a packet
+    # is the corresponding element of the Lean `frameSends` (driver `frame.write`) of its payload
+    import zlib as _z
+    blines, bimpl = [], []
+    for (pid, thr), (c0, c1) in sorted(BYTE_SAMPLES.items(), key=lambda kv: (kv[0][0], -1 if kv[0][1] is None else kv[0][1]))[:ctx.scale(60, 400)]:
+        msg = ('m%d' % pid + 'x' * (pid % 7)).encode()
+        payload = rc.varint(0x03) + rc.varint(len(msg)) + msg
+        zmap = '-'
+        if thr is not None and len(payload) > thr:      # Packet._write_buffer compresses strictly above the threshold
+            dl, q = rc.read_varint(c1, 0)
+            zmap = '%s:%s' % (c1[q:].hex(), payload.hex())
+            if _z.decompress(c1[q:]) != payload:
+                ctx.violation('compressed body of packet %d does not inflate to its payload' % pid, {'pid': pid}, key={'bytes': pid})
+        blines.append('frame.write %s zmap=%s %s' % ('none' if thr is None else thr, zmap, payload.hex()))
+        bimpl.append('ok %s %s' % (c0.hex(), c1.hex()))
+    for line, mo, g in zip(blines, ctx.driver.ask(blines), bimpl):
+        ctx.case(('chunk-bytes', line))
+        if mo != g:
+            ctx.disagree('send arguments of one packet vs Lean frameSends', line[:200], mo[:200], g[:200])
+    ctx.extra['chunk_byte_pairs_compared'] = len(blines)
+
+
+BYTE_SAMPLES = {}
 
 
 def record(ctx, progs, r, transport, lines, impl, label):
+    if transport in ('plain', 'compressed') and len(BYTE_SAMPLES) < 2000:
+        thr = 4 if transport == 'compressed' else None
+        halves = {}
+        for _, p, c, b in r['wire']:
+            halves.setdefault(p, {})[c] = bytes(b)
+        for p, h in halves.items():
+            if 0 in h and 1 in h:
+                BYTE_SAMPLES.setdefault((p, thr), (h[0], h[1]))
     if not r['attached']:
         ctx.disagree('instrumentation did not attach (Connection no longer builds its lock from the module-level RLock)',
                      prog_str(progs), None, None)
